@@ -95,6 +95,10 @@ func ParseReadSeeker(r io.ReadSeeker) (topOp Operation, err error) {
 		return nil, err
 	}
 
+	if topOp == nil {
+		return nil, fmt.Errorf("invalid query: no operation found")
+	}
+
 	return
 }
 
